@@ -36,7 +36,13 @@ theorem nodeTree_leaves_sub (z : Bool) : ∀ (n : Node) (l : Path × PyVal),
     have h2 := nodeTrees_leaves_sub z cs l' h1
     simp only [Node.leaves, map_convLeaf_pre]
     exact mem_pre.mpr ⟨l', h2, rfl⟩
-  | .sect _ _ _ _, l, h => by simp [nodeTree, kidsLeaves] at h
+  | .sect _ _ k cs, l, h => by
+    simp only [nodeTree, kidsLeaves, Tree.leaves, List.append_nil] at h
+    obtain ⟨l', hl', rfl⟩ := mem_pre.mp h
+    have h1 := mem_kidsLeaves_dictOf _ hl'
+    have h2 := nodeTrees_leaves_sub z cs l' h1
+    simp only [Node.leaves, map_convLeaf_pre]
+    exact mem_pre.mpr ⟨l', h2, rfl⟩
   | .comment _ _, l, h => by simp [nodeTree, kidsLeaves] at h
 theorem nodeTrees_leaves_sub (z : Bool) : ∀ (ns : List Node) (l : Path × PyVal),
     l ∈ kidsLeaves (nodeTrees z ns) → l ∈ (leavesList ns).map (convLeaf z)
@@ -82,25 +88,27 @@ theorem docTree_leaves_sub (z : Bool) (d : Doc) (l : Path × PyVal) (h : l ∈ (
 /-! ### exactness under the guards -/
 
 mutual
-theorem nodeTree_leaves_eq (z : Bool) : ∀ (n : Node), noSectionsNode n = true → noDupNode n = true →
+theorem nodeTree_leaves_eq (z : Bool) : ∀ (n : Node), noDupNode n = true →
     kidsLeaves (nodeTree z n) = n.leaves.map (convLeaf z)
-  | .assign _ k v, _, _ => by simp [nodeTree, kidsLeaves, Tree.leaves, pre, Node.leaves, convLeaf]
-  | .block _ k cs, hs, hd => by
-    simp only [noSectionsNode] at hs
+  | .assign _ k v, _ => by simp [nodeTree, kidsLeaves, Tree.leaves, pre, Node.leaves, convLeaf]
+  | .block _ k cs, hd => by
     simp only [noDupNode, Bool.and_eq_true, decide_eq_true_eq] at hd
     have hk : ((nodeTrees z cs).map Prod.fst).Nodup := by rw [nodeTrees_keys]; exact hd.1
     simp only [nodeTree, kidsLeaves, Tree.leaves, List.append_nil, dictOf_nodup _ hk,
-      nodeTrees_leaves_eq z cs hs hd.2, Node.leaves, map_convLeaf_pre]
-  | .sect _ _ _ _, hs, _ => by simp [noSectionsNode] at hs
-  | .comment _ _, _, _ => by simp [nodeTree, kidsLeaves, Node.leaves]
-theorem nodeTrees_leaves_eq (z : Bool) : ∀ (ns : List Node), noSectionsList ns = true → noDupList ns = true →
+      nodeTrees_leaves_eq z cs hd.2, Node.leaves, map_convLeaf_pre]
+  | .sect _ _ k cs, hd => by
+    simp only [noDupNode, Bool.and_eq_true, decide_eq_true_eq] at hd
+    have hk : ((nodeTrees z cs).map Prod.fst).Nodup := by rw [nodeTrees_keys]; exact hd.1
+    simp only [nodeTree, kidsLeaves, Tree.leaves, List.append_nil, dictOf_nodup _ hk,
+      nodeTrees_leaves_eq z cs hd.2, Node.leaves, map_convLeaf_pre]
+  | .comment _ _, _ => by simp [nodeTree, kidsLeaves, Node.leaves]
+theorem nodeTrees_leaves_eq (z : Bool) : ∀ (ns : List Node), noDupList ns = true →
     kidsLeaves (nodeTrees z ns) = (leavesList ns).map (convLeaf z)
-  | [], _, _ => by simp [nodeTrees, kidsLeaves, leavesList]
-  | n :: ns, hs, hd => by
-    simp only [noSectionsList, Bool.and_eq_true] at hs
+  | [], _ => by simp [nodeTrees, kidsLeaves, leavesList]
+  | n :: ns, hd => by
     simp only [noDupList, Bool.and_eq_true] at hd
     simp only [nodeTrees, kidsLeaves_append, leavesList, List.map_append,
-      nodeTree_leaves_eq z n hs.1 hd.1, nodeTrees_leaves_eq z ns hs.2 hd.2]
+      nodeTree_leaves_eq z n hd.1, nodeTrees_leaves_eq z ns hd.2]
 end
 
 theorem metaTree_keys (z : Bool) (m : List (Str × Value)) :
@@ -119,13 +127,13 @@ theorem metaTree_leaves_eq (z : Bool) (m : List (Str × Value)) (h : (m.map Prod
     simp only [kidsLeaves, Tree.leaves, List.append_nil, dictOf_nodup _ hk, kidsLeaves_metaLeafs]
     simp [pre, metaLeaves, convLeaf, List.map_map, Function.comp_def]
 
-theorem docTree_leaves_eq (z : Bool) (d : Doc) (hs : noSections d = true) (hd : noDupSiblings d = true) :
+theorem docTree_leaves_eq (z : Bool) (d : Doc) (hd : noDupSiblings d = true) :
     (docTree z d).leaves = (Doc.leaves d).map (convLeaf z) := by
   simp only [noDupSiblings, Bool.and_eq_true, decide_eq_true_eq] at hd
   obtain ⟨⟨htop, hmeta⟩, hdl⟩ := hd
   have hk : ((metaTree z d.dmeta ++ nodeTrees z d.sections).map Prod.fst).Nodup := by
     rw [List.map_append, metaTree_keys, nodeTrees_keys]; exact htop
   simp only [docTree, Tree.leaves, dictOf_nodup _ hk, kidsLeaves_append, Doc.leaves, List.map_append,
-    metaTree_leaves_eq z _ hmeta, nodeTrees_leaves_eq z _ hs hdl]
+    metaTree_leaves_eq z _ hmeta, nodeTrees_leaves_eq z _ hdl]
 
 end Octave
